@@ -450,3 +450,114 @@ func countDownFromLen(ph *ssa.Phi) bool {
 	}
 	return okInit
 }
+
+// fallibleStores (C20.R9): a long-lived field of the controller or of a group's state that is
+// overwritten with result 0 of a fallible call (a value paired with an error) must not keep the
+// failed call's (nil) value beyond the scan: on every path from the store along which the error is
+// non-nil the function reports the failure (returns a non-nil error) — or the store itself happens
+// only under err == nil. Otherwise the next scan dereferences a nil provider / client.
+func (ck *Check) fallibleStores(rule string, fns []*ssa.Function) {
+	a := ck.A
+	persistent := func(fa *ssa.FieldAddr) bool {
+		st := derefStruct(fa.X.Type())
+		if st == nil {
+			return false
+		}
+		for _, n := range []*types.Named{a.TController, a.TState} {
+			if n != nil && types.Identical(st, n.Underlying()) {
+				return true
+			}
+		}
+		return false
+	}
+	n := 0
+	for _, fn := range fns {
+		ctx := ck.P.NewCtx(fn)
+		ord := 0
+		for _, b := range fn.Blocks {
+			for _, in := range b.Instrs {
+				st, ok := in.(*ssa.Store)
+				if !ok {
+					continue
+				}
+				fa, ok := st.Addr.(*ssa.FieldAddr)
+				if !ok || !persistent(fa) {
+					continue
+				}
+				ex, ok := st.Val.(*ssa.Extract)
+				if !ok || ex.Index != 0 {
+					continue
+				}
+				call, ok := ex.Tuple.(*ssa.Call)
+				if !ok {
+					continue
+				}
+				tup, ok := call.Type().(*types.Tuple)
+				if !ok || tup.Len() < 2 || !isErrorType(tup.At(tup.Len()-1).Type()) {
+					continue
+				}
+				if _, isPtrLike := tup.At(0).Type().Underlying().(*types.Basic); isPtrLike {
+					continue // a number: nothing to dereference
+				}
+				n++
+				key := fmt.Sprintf("%s/fallible-store#%d:%s", funcID(fn), ord, fieldOfAddr(fa).Name())
+				ord++
+				ct := ctx.Term(call)
+				errNil := cmpFormula(token.EQL, &Term{Kind: "extract", Name: fmt.Sprint(tup.Len() - 1), Args: []*Term{ct}}, &Term{Kind: "const", Name: "nil"})
+				if imp, _, _ := Entails(ctx.PC(st), errNil); imp {
+					ck.ok(rule, key, ck.P.instrPos(st), funcID(fn), "a fallible result is stored into long-lived state only when the call succeeded", "stored under err == nil")
+					continue
+				}
+				// forward search along edges compatible with err != nil
+				bad := ""
+				seen := map[*ssa.BasicBlock]bool{}
+				var walk func(blk *ssa.BasicBlock, from int)
+				walk = func(blk *ssa.BasicBlock, from int) {
+					for i := from; i < len(blk.Instrs); i++ {
+						switch x := blk.Instrs[i].(type) {
+						case *ssa.Store:
+							if x != st && x.Addr == st.Addr {
+								return // overwritten
+							}
+							if fa2, ok := x.Addr.(*ssa.FieldAddr); ok && x != st && fa2.Field == fa.Field && sameAddr(fa2.X, fa.X) {
+								return
+							}
+						case *ssa.Return:
+							reports := false
+							for _, r := range x.Results {
+								if isErrorType(r.Type()) {
+									if k, ok := r.(*ssa.Const); !(ok && k.IsNil()) {
+										reports = true
+									}
+								}
+							}
+							if !reports && bad == "" {
+								bad = ck.P.instrPos(x)
+							}
+							return
+						case *ssa.Call:
+							if isExitCallee(x.Common().StaticCallee()) {
+								return
+							}
+						}
+					}
+					for _, s := range blk.Succs {
+						if seen[s] {
+							continue
+						}
+						if sat, err := Satisfiable(And(ctx.edgeCond(blk, s), Not(errNil))); err == nil && !sat {
+							continue
+						}
+						seen[s] = true
+						walk(s, 0)
+					}
+				}
+				pos := infoOf(fn).pos[st]
+				walk(b, pos[1]+1)
+				ck.cond(bad == "", rule, key, ck.P.instrPos(st), funcID(fn), "after a failed call whose result was stored into long-lived state the function reports the failure on every path", "",
+					"the field keeps the failed call's nil result and the function returns normally at "+bad+": the next scan dereferences it")
+			}
+		}
+	}
+	ck.Stats[rule+" fallible stores into controller / group state"] = n
+}
